@@ -22,7 +22,7 @@
 (*    builder may change error variants or unspecified trees, that replay  *)
 (*    never decides a property (DESIGN.md rule 4.5).                       *)
 (***************************************************************************)
-EXTENDS Grammar
+EXTENDS Builtins, Grammar
 CONSTANT Repaired            \* TRUE: the builder after the fix: commits D1-D3; FALSE: as pinned
 
 RootN(k) == NOp("Root", k)
@@ -165,6 +165,21 @@ RECURSIVE Deficient(_)
 Deficient(n) == \/ (n.o = "Root" /\ Len(n.k) > 1) \/ (n.o = "Chain" /\ Len(n.k) = 0)
                 \/ (n.o \notin {"Root", "Tuple", "Chain", "Empty"} /\ Len(n.k) # MaxArgs(n.o))
                 \/ \E i \in 1..Len(n.k) : Deficient(n.k[i])
+
+\* Display of a tree (src/tree/display.rs, src/operator/display.rs): the operator, then every child preceded by a blank -
+\* prefix notation in which wrapper nodes print nothing
+OpDisplay(n) ==
+  CASE n.o = "Root" -> <<>>
+    [] n.o \in {"Const"} -> DisplayValue(n.v)
+    [] n.o \in {"Read", "Write", "Call"} -> n.n
+    [] n.o = "Neg" -> <<45>> [] n.o = "Not" -> <<33>>
+    [] n.o = "Tuple" -> <<44, 32>> [] n.o = "Chain" -> <<59, 32>>
+    [] n.o \in AssignNodes -> <<32>> \o OpText[NodeOp[n.o]] \o <<32>>
+    [] OTHER -> OpText[NodeOp[n.o]]
+RECURSIVE DisplayTree(_)
+RECURSIVE DisplayKids(_, _)
+DisplayKids(k, i) == IF i > Len(k) THEN <<>> ELSE <<32>> \o DisplayTree(k[i]) \o DisplayKids(k, i + 1)
+DisplayTree(n) == OpDisplay(n) \o DisplayKids(n.k, 1)
 
 \* does the machine refine the grammar on ts?
 Refines(ts) ==
